@@ -1644,4 +1644,88 @@ theorem sr_error_complete (cfg : Cfg) (hmn : cfg.maxNilCheck = true) (cands : Li
   · cases hp
   · exact Or.inr ⟨members, hm, apply_error_complete cfg hmn members s.rule s.count s.min s.max e hr.symm⟩
 
+
+theorem srSelect_ok (cfg : Cfg) (cands : List Cand) : ∀ (ss : List SR) (sel : List Cred), srSelect cfg cands ss = .ok sel →
+    ∃ ls, SelectedBy cfg cands ss ls ∧ sel = ls.flatten
+  | [], sel, h => by
+    unfold srSelect at h; injection h with h; subst h; exact ⟨[], trivial, rfl⟩
+  | s :: ss, sel, h => by
+    unfold srSelect at h
+    split at h
+    · next l heq =>
+      split at h
+      · next r heq2 =>
+        injection h with h; subst h
+        obtain ⟨ls, h1, h2⟩ := srSelect_ok cfg cands ss r heq2
+        exact ⟨l :: ls, ⟨heq, h1⟩, by simp [h2]⟩
+      · cases h
+      · cases h
+    · cases h
+    · cases h
+
+theorem srSelect_err (cfg : Cfg) (cands : List Cand) : ∀ (ss : List SR) (e : String), srSelect cfg cands ss = .err e →
+    ∃ s ∈ ss, SR.matchSR cfg cands s = .err e
+  | [], e, h => by unfold srSelect at h; cases h
+  | s :: ss, e, h => by
+    unfold srSelect at h
+    split at h
+    · split at h
+      · cases h
+      · next e' heq2 =>
+        injection h with h; subst h
+        obtain ⟨s', hs', he⟩ := srSelect_err cfg cands ss e' heq2
+        exact ⟨s', List.mem_cons_of_mem _ hs', he⟩
+      · cases h
+    · next e' heq => injection h with h; subst h; exact ⟨s, List.mem_cons_self, heq⟩
+    · cases h
+
+/-- `Match` with submission requirements, success: the candidates are computed, every requirement succeeds on them,
+    and the selected credentials are the de-duplicated concatenation of the requirements' selections -/
+theorem pdMatch_sr_ok (cfg : Cfg) (re : Regex) (pd : PD) (w : List Cred) (ms : List Mapping) (vcs : List Cred)
+    (hsr : pd.srs ≠ []) (h : pdMatch cfg re pd w = .ok (ms, vcs)) :
+    ∃ cands ls, matchConstraints cfg re pd w pd.descs = .ok cands ∧ SelectedBy cfg cands pd.srs ls ∧ vcs = dedup [] ls.flatten := by
+  unfold pdMatch at h
+  have : (!pd.srs.isEmpty) = true := by cases hs : pd.srs with | nil => exact absurd hs hsr | cons _ _ => rfl
+  simp only [this, if_true] at h
+  unfold matchSubmissionRequirements at h
+  split at h
+  · next cands heq =>
+    simp only at h
+    split at h
+    · cases h
+    · split at h
+      · next sel heq2 =>
+        injection h with h; injection h with h1 h2; subst h2
+        obtain ⟨ls, hl1, hl2⟩ := srSelect_ok cfg cands pd.srs sel heq2
+        exact ⟨cands, ls, heq, hl1, by rw [hl2]⟩
+      · cases h
+      · cases h
+  · cases h
+  · cases h
+
+/-- `Match` with submission requirements, failure: the evaluation of the constraints failed, an input descriptor
+    names a group no requirement refers to, or one of the requirements failed on the candidates -/
+theorem pdMatch_sr_err (cfg : Cfg) (re : Regex) (pd : PD) (w : List Cred) (e : String)
+    (hsr : pd.srs ≠ []) (h : pdMatch cfg re pd w = .err e) :
+    matchConstraints cfg re pd w pd.descs = .err e ∨
+    ∃ cands, matchConstraints cfg re pd w pd.descs = .ok cands ∧ (e = "group" ∨ ∃ s ∈ pd.srs, SR.matchSR cfg cands s = .err e) := by
+  unfold pdMatch at h
+  have : (!pd.srs.isEmpty) = true := by cases hs : pd.srs with | nil => exact absurd hs hsr | cons _ _ => rfl
+  simp only [this, if_true] at h
+  unfold matchSubmissionRequirements at h
+  split at h
+  · next cands heq =>
+    right
+    simp only at h
+    split at h
+    · injection h with h; exact ⟨cands, heq, Or.inl h.symm⟩
+    · split at h
+      · cases h
+      · next e' heq2 =>
+        injection h with h; subst h
+        exact ⟨cands, heq, Or.inr (srSelect_err cfg cands pd.srs e' heq2)⟩
+      · cases h
+  · next e' heq => injection h with h; subst h; exact Or.inl heq
+  · cases h
+
 end Nuts.C12
